@@ -40,6 +40,7 @@ RULE = (
     "broadcasting OR vector rhs OR duplicates / zeros / empty sparse OR partial permutation OR rectangular / deficient "
     "matrix OR n == 1. Distinct by hash of the whole case."
 )
+FUZZ = {"workers": 8, "runs": 3000}  # Atheris campaigns in the thorough tier (DESIGN section 5)
 BUDGET = {"quick": 3000, "thorough": 8000}
 ASSUMPTIONS = [
     "documented domain = docstring; where the docstring is empty (left_interp, left_t_interp, sparse_getitem, sparse_repeat, "
